@@ -156,6 +156,23 @@ CLAIMED.update({
             FSM_NOTE, "TLA+ design model + TLC schedule export + real SafeUpgrade on real bbolt + TLC trace validation", "7/C29"),
 })
 
+CLAIMED.update({
+    "C18": ("locks", "model_checking",
+            "Locks.tla transcribes every concurrent entry point (message handler, block loop, observation loops, Electrum subscriber, payment and timeout callbacks, RPC/policy commands, recovery) as lock / gate / "
+            "callback programs over an interpreter with Mutex, RWMutex (writer preference), channels, spawn/join. TLC explores all interleavings of pairs and triples x swap state x chain depth {not, edge, just, long} x "
+            "watcher {RPC, Electrum}, collects the deadlock classes, checks the design repaired by three fixes deadlock-free (thorough: every handler returns under weak fairness) and exports one schedule per class "
+            "(configuration, outcome, first mover). Each schedule runs on the REAL SwapService with the real RPC and LWK/Electrum watchers under gate control with a watchdog (goroutine dump: handlers still in "
+            "Mutex.Lock / RWMutex / channel send after the grace period); LocksTrace.tla validates start/return matching and replays every run on the specification (observed position of every process must be allowed).",
+            "One swap plus one new swap; Lightning node, wallet, peer and chain servers are simulated; four genuine deadlocks are known findings; the LND watcher is covered by reading only.",
+            "TLA+ lock/program interpreter + TLC interleaving exploration + gate-scheduled real-code runs + TLC trace validation", "7/C18"),
+    "C19": ("locks", "exploration",
+            "The schedule space and the predicted racing pairs are model-checked: TLC computes on Locks.tla all simultaneously enabled conflicting accesses with disjoint locksets. The verdict comes from the Go race "
+            "detector: VERIF_SEED-seeded pairwise (sometimes triple) stress of all entry points on the real code built with -race; every report is mapped to the pair of lock-discipline sites the specification names; "
+            "the detected pairs must be among the predicted ones (otherwise drift, exit 2).",
+            "Absence of a report is evidence only for the schedules that were run; the simulated services add happens-before edges; six root causes (18 signatures) are known findings.",
+            "TLA+ lockset model (TLC) + seeded stress of the real code under the Go race detector, reports matched against the model", "7/C19"),
+})
+
 NOT_YET = {}
 
 
@@ -199,6 +216,7 @@ def main():
             dict(name="policy", path="engines/policy.py", serves_properties=["C25"], kind_free_text="Policy.tla; real policy.Policy on files"),
             dict(name="premium", path="engines/premium.py", serves_properties=["C27"], kind_free_text="Premium.tla; real premium.Setting on bbolt"),
             dict(name="peersync", path="engines/peersync.py", serves_properties=["C28", "C26"], kind_free_text="PeerSync.tla; real PeerSync/Store/poller"),
+            dict(name="locks", path="engines/locks.py", serves_properties=["C18", "C19"], kind_free_text="Locks.tla lock/program interpreter; real SwapService + real watchers under gate control; race detector"),
             dict(name="swapfsm", path="engines/swapfsm.py", serves_properties=sorted(k for k, v in CLAIMED.items() if v[0] == "swapfsm"),
                  kind_free_text="TLA+ design model of the swap FSMs (PeerSwap.tla) + observer (PeerSwapObs.tla); TLC export; harness/l1; trace validation"),
         ],
